@@ -8,7 +8,7 @@ func init() {
 		rule: "round trip: a rapid-drawn payload (empty, 1 byte, random, text, repetitive, long runs, > 32 KiB with far matches, > 64 KiB) or image (gray8/16, RGB(A)8/16, paletted 2..256 colours with transparency, 1..70 px) is encoded by an independent encoder - compress/flate|zlib|gzip at levels {-2,0,1,6,9} with Flush points and gzip header variants, compress/lzw LSB with literal widths 2..8 (decoder quirk), the system bzip2 -1..-9 and xz -0..-9[e] --format=xz|lzma --check=none|crc32|crc64|sha256, image/png at four compression levels, image/gif with 1-4 frames/local palettes/transparency, x/image/bmp - and decoded by the Wuffs decoder regenerated from the tree (ASan+UBSan), one-shot or under a drawn chunking plan; decoded bytes / BGRA_NONPREMUL (8 or 4x16LE) pixels must equal the original exactly, status OK (images: '@base: end of data' after the last frame), all input consumed. Hashers (CRC-32/IEEE, CRC-64/ECMA, Adler-32, SHA-256) vs Go's standard library under update partitions of 1, 15..17, 31..33, 63..65, 5551..5553-byte pieces, empty updates, misaligned exact-size buffers, update vs update_uNN. Non-trivial = original of >= 64 bytes (hashers: additionally >= 2 updates); distinct by (codec, encoded bytes, plan).",
 		assumptions:   []string{"the reference encoders (Go standard library, x/image/bmp, system bzip2 and xz) emit valid files", "formats without an independent local encoder (lzip, webp, qoi, jpeg exactness...) are outside this property as stated"},
 		minNontrivial: 500,
-		quick:         tier{jobs: []job{{name: "roundtrip", run: "^TestProp$", shards: 16, checks: 250, timeout: 15 * time.Minute}}},
+		quick:         tier{jobs: []job{{name: "roundtrip", run: "^TestProp$", shards: 16, checks: 120, timeout: 25 * time.Minute}}},
 		thorough:      tier{jobs: []job{{name: "roundtrip", run: "^TestProp$", shards: 16, checks: 12000, timeout: 120 * time.Minute}}},
 	})
 }
